@@ -79,7 +79,7 @@ MODELLED = {
     "SingleAxisFiniteDifference", "FiniteDifference", "DFT", "CircularConvolve", "Convolve", "ConvolveByX", "Pad", "Crop",
     "Reshape", "Transpose", "Sum", "Slice", "VerticalStack", "DiagonalStack", "DiagonalReplicated", "XRayTransform2D",
     "SingleAxisFiniteSum", "FiniteSum", "SingleAxisHaarTransform", "HaarTransform",
-    "ProjectedGradient", "PolarGradient", "CylindricalGradient", "SphericalGradient",
+    "ProjectedGradient", "PolarGradient", "CylindricalGradient", "SphericalGradient", "AbelTransform",
 }
 HIPREC = {"DFT": np.complex128, "XRayTransform2D": np.float64, "XRayTransform3D": np.float64}
 
@@ -284,6 +284,16 @@ class Lean:
                 for k, y in enumerate(r["ys"]):
                     ys[k].append(np.array(b2fs(y)))
             return np.vstack(mats), (xs, [np.concatenate(y) for y in ys])
+        if name == "AbelTransform":
+            # quadrant assembly of the model (abelEval = I (x) abelRowMatrix, C04_abel_rows) around the single-quadrant
+            # matrix the operator holds (PyAbel's Daun basis projection: a contract)
+            n, mm = c["shape"]
+            P = np.asarray(op.proj_mat_quad, dtype=np.float64)
+            xs = self.xs(n * mm)
+            r = self.m.call("abel", n=n, m=mm, P=[_blk(P)], xs=[fs2b(x) for x in xs])
+            if not np.array_equal(_mat(r["mat"]), _mat(r["doc"])):
+                raise common.Infra("model: abelEval and I (x) abelRowMatrix differ")
+            return _mat(r["mat"]), (xs, [np.array(b2fs(y)) for y in r["ys"]])
         if name in ("SingleAxisFiniteSum", "FiniteSum", "SingleAxisHaarTransform", "HaarTransform") and real:
             sh = c["shape"]
             nd = len(sh)
